@@ -171,6 +171,13 @@ func deadlockWatchdog() {
 		}
 		a := parkedSignature()
 		if a == "" {
+			// not everybody is parked: perhaps one goroutine of the library runs in a loop that nothing can end
+			if g, common := spinningLibGoroutine(cur); g != nil {
+				out.Violation("livelock:"+strings.Join(common, "<"), fmt.Sprintf("no case has finished for %v; every goroutine is parked except one of the library's, which has been running in %s through 6 snapshots a second apart (state %s): it loops without anything in the process being able to end the loop", time.Since(since).Round(time.Second), strings.Join(common, " < "), g.state), map[string]interface{}{"stack": g.stack})
+				out.Note("livelock watchdog: ending the child")
+				out.Done()
+				os.Exit(0)
+			}
 			continue
 		}
 		time.Sleep(400 * time.Millisecond)
@@ -190,6 +197,79 @@ func deadlockWatchdog() {
 		out.Done()
 		os.Exit(0)
 	}
+}
+
+// spinningLibGoroutine: six snapshots one second apart, in each of which exactly one goroutine (the same
+// one) is not parked, that goroutine has library frames, and the case counter has not moved. It returns
+// that goroutine and the library functions that were on its stack every time (innermost first).
+func spinningLibGoroutine(cur int64) (*gInfo, []string) {
+	var gid int
+	var last *gInfo
+	var common []string
+	for k := 0; k < 6; k++ {
+		if k > 0 {
+			time.Sleep(time.Second)
+		}
+		if out.CaseCounter() != cur {
+			return nil, nil
+		}
+		me := goid()
+		var running []*gInfo
+		var rid int
+		for id, g := range snapshot() {
+			if id == me {
+				continue
+			}
+			if strings.Contains(g.stack, "rawclient.(*Client).WaitFor") || strings.Contains(g.stack, "eventSink).waitCount") || strings.Contains(g.stack, "vrun.stuckVerdict") {
+				return nil, nil
+			}
+			st := g.state
+			if parkedState(st) || strings.HasPrefix(st, "GC ") || strings.HasSuffix(st, "(idle)") || st == "idle" || st == "finalizer wait" || st == "cleanup wait" || st == "debug call" || st == "trace reader (blocked)" {
+				continue
+			}
+			if strings.Contains(g.stack, "os/signal.") || strings.Contains(g.stack, "runtime.ensureSigM") {
+				continue
+			}
+			running = append(running, g)
+			rid = id
+		}
+		if len(running) != 1 || !running[0].hasLibFrame() || (k > 0 && rid != gid) {
+			return nil, nil
+		}
+		g := running[0]
+		if g.state != "running" && g.state != "runnable" {
+			return nil, nil
+		}
+		var fs []string
+		for _, f := range g.frames {
+			if strings.HasPrefix(f, libPath) {
+				name := strings.TrimPrefix(f, libPath)
+				if i := strings.LastIndex(name, "("); i > 0 && strings.HasSuffix(name, ")") {
+					name = name[:i]
+				}
+				fs = append(fs, name)
+			}
+		}
+		if k == 0 {
+			gid, common = rid, fs
+		} else {
+			var keep []string
+			for _, c := range common {
+				for _, f := range fs {
+					if f == c {
+						keep = append(keep, c)
+						break
+					}
+				}
+			}
+			common = keep
+		}
+		last = g
+		if len(common) == 0 {
+			return nil, nil
+		}
+	}
+	return last, common
 }
 
 // parkedSignature returns a digest of all goroutine stacks if every goroutine
